@@ -25,6 +25,8 @@
 //!                             -> ok <id>=<fee>;.. | rbf-disabled
 //!   dump                      -> every piece of bookkeeping, canonically sorted
 //! Every state-changing op is followed by a `dump`.
+//! Second stream (`node` argument, c11_node.rs): nsubmit / nnotify / nblock drive a real node through
+//! submit_local_tx / notify_txs / blocks; replay and corpus files are routed by their content.
 use crate::common::*;
 use ckb_app_config::TxPoolConfig;
 use ckb_chain_spec::consensus::{Consensus, ConsensusBuilder};
@@ -39,6 +41,9 @@ use ckb_types::prelude::*;
 use std::collections::{BTreeMap, BTreeSet, HashMap, HashSet};
 use std::path::PathBuf;
 use std::sync::{Arc, Mutex};
+
+#[path = "c11_node.rs"]
+mod c11_node;
 
 const N_ROOTS: u64 = 3;
 const ROOT_OUTS: u64 = 8;
@@ -124,6 +129,8 @@ struct Sim {
     txs: BTreeMap<u64, TxDecl>,
     by_short: HashMap<ProposalShortId, u64>,
     by_hash: HashMap<Byte32, u64>,
+    /// node-level stream only: real header hashes -> small ids
+    hdr_ids: HashMap<Byte32, u64>,
     chain: BTreeSet<u64>,
     callbacks: Callbacks,
     rejected: Arc<Mutex<Vec<ProposalShortId>>>,
@@ -232,6 +239,7 @@ impl Sim {
             txs: BTreeMap::new(),
             by_short: HashMap::new(),
             by_hash: HashMap::new(),
+            hdr_ids: HashMap::new(),
             chain: BTreeSet::new(),
             callbacks,
             rejected,
@@ -313,6 +321,12 @@ impl Sim {
 
     fn view(&self) -> View {
         let d: PoolDump = self.pool.verif_pool_map().verif_dump();
+        self.view_of(&d)
+    }
+
+    /// canonical id-based copy of a dump (also used by the node-level stream, whose dump comes from the
+    /// running tx-pool service)
+    fn view_of(&self, d: &PoolDump) -> View {
         let mut v = View { keys_ok: true, ..Default::default() };
         for e in &d.entries {
             let t = &e.entry;
@@ -344,6 +358,9 @@ impl Sim {
             let hv = hs
                 .iter()
                 .map(|h| {
+                    if let Some(n) = self.hdr_ids.get(h) {
+                        return *n;
+                    }
                     let mut b = [0u8; 8];
                     b.copy_from_slice(&h.as_slice()[1..9]);
                     u64::from_le_bytes(b)
@@ -2060,6 +2077,18 @@ pub fn run(opts: &Opts) {
     // which repairs are in /repo: the corresponding pattern no longer excuses a stale aggregate
     let has = |k: &str| opts.extra.iter().any(|a| a == k);
     let f2_fixed = (has("f2-fixed"), has("f3-fixed"), has("mid-fixed"));
+    // a replay / corpus file is routed by its content (bin/check replays every corpus file in every stream)
+    let node_mode = match &opts.replay {
+        Some(rp) => read_replay_ops(rp).iter().any(|l| l.starts_with("nsubmit ") || l.starts_with("nnotify ") || l.starts_with("nblock ")),
+        None => has("node"),
+    };
+    if node_mode {
+        // second stream: the same model driven through a real node (submit_local_tx / notify_txs / blocks)
+        c11_node::run_node(opts, out, &world, f2_fixed);
+        drop(world.snapshot);
+        let _ = std::fs::remove_dir_all(&world.base);
+        return;
+    }
     if let Some(rp) = &opts.replay {
         let ops = read_replay_ops(rp);
         replay_case(&mut out, &world, &ops, f2_fixed);
